@@ -49,7 +49,7 @@ type c09Config struct {
 
 // script names are ordinary map keys: per cents, blanks and dots included
 func c09Name(i int) string {
-	return []string{"a.p", "b%d.p", "100%.p", "d %s d.p", "e.p", "f.p"}[i%6]
+	return []string{"a.p", "b%d.p", "100%.p", "d %s d.p", "e.p", "f.p", "g.ppl", "h-8.p"}[i%8]
 }
 
 func c09PerScript(n int) int64 { return 3 * (1 + int64(n+1) + int64(n+1)*int64(n+1)) }
@@ -91,6 +91,7 @@ func (c09) Plan(tier string, seed int64) []mon.Workload {
 			{Name: "n2", N: c09Count(2), Exhaustive: true},
 			{Name: "n3", N: c09Count(3), Exhaustive: true},
 			{Name: "n4-random", N: 120000},
+			{Name: "deep-chains", N: 6000},
 		}
 	}
 	return []mon.Workload{
@@ -98,6 +99,7 @@ func (c09) Plan(tier string, seed int64) []mon.Workload {
 		{Name: "n2", N: c09Count(2), Exhaustive: true},
 		{Name: "n3-random", N: 4000},
 		{Name: "n4-random", N: 3000},
+		{Name: "deep-chains", N: 150},
 	}
 }
 
@@ -111,6 +113,35 @@ func (c09) config(c *mon.Ctx, workload string, i int64) c09Config {
 		return c09Decode(3, i)
 	case "n3-random":
 		return c09Decode(3, c.R.Int63n(c09Count(3)))
+	}
+	if workload == "deep-chains" {
+		// 6..8 scripts with a use chain at least 5 deep (0 -> 1 -> ... ),
+		// extra calls back into the chain (diamonds, second calls, now and
+		// then a cycle or a missing / broken member)
+		n := 6 + c.R.Intn(3)
+		cfg := c09Config{N: n}
+		for s := 0; s < n; s++ {
+			sc := c09Script{}
+			if s+1 < n && (s < 5 || c.R.Intn(2) == 0) {
+				sc.Calls = append(sc.Calls, s+1)
+			}
+			if c.R.Intn(2) == 0 {
+				t := c.R.Intn(n + 1)
+				if t <= s && c.R.Intn(4) != 0 {
+					t = s + 1 + c.R.Intn(n-s)
+				}
+				sc.Calls = append(sc.Calls, t)
+			}
+			if c.R.Intn(12) == 0 {
+				sc.Kind = 1 + c.R.Intn(2)
+			}
+			cfg.Scripts = append(cfg.Scripts, sc)
+		}
+		// the root of the long chain is also called from the last script now and then
+		if c.R.Intn(3) == 0 {
+			cfg.Scripts[n-1].Calls = append(cfg.Scripts[n-1].Calls, 1+c.R.Intn(3))
+		}
+		return cfg
 	}
 	// n = 4 random, biased towards valid scripts so that deep chains occur
 	cfg := c09Config{N: 4}
@@ -389,8 +420,22 @@ func (k c09) Run(c *mon.Ctx, workload string, i int64) {
 		return true
 	}
 
-	// ordered driver: all n! root orders
-	for _, perm := range permutations(cfg.N) {
+	// ordered driver: all n! root orders (a seeded sample of 16 for more than 4 scripts)
+	perms := permutations(min(cfg.N, 4))
+	if cfg.N > 4 {
+		perms = nil
+		for j := 0; j < 16; j++ {
+			perms = append(perms, c.R.Perm(cfg.N))
+		}
+		// always include the order that starts at the chain's head and the reverse
+		id := make([]int, cfg.N)
+		rev := make([]int, cfg.N)
+		for j := range id {
+			id[j], rev[j] = j, cfg.N-1-j
+		}
+		perms = append(perms, id, rev)
+	}
+	for _, perm := range perms {
 		order := make([]string, cfg.N)
 		for j, p := range perm {
 			order[j] = names[p]
@@ -423,7 +468,7 @@ func (k c09) Run(c *mon.Ctx, workload string, i int64) {
 
 	// real driver: every insertion permutation, repeated
 	reps := 2
-	for _, perm := range permutations(cfg.N) {
+	for _, perm := range perms {
 		for r := 0; r < reps; r++ {
 			m := map[string]string{}
 			for _, p := range perm {
